@@ -1417,3 +1417,25 @@ def callbox_table(ctx, rule):
                     base.loc(base.line), detail=str(rows)[:300] + (" spawned in %s" % spawned if spawned else ""),
                     fail="%s::call no longer runs the user's callback to completion before returning (%s%s): a spawn / an error report proceeds while the callback is still running"
                          % (name, str(rows)[:200], ", detached with tokio::spawn" if spawned else ""))
+
+
+def recv_cancel_safe(ctx, rule):
+    """PriorityReceiver::recv is polled as one branch of the job task's select! next to the process wait: it may be dropped at any await.
+    So once a message has been taken out of a queue nothing may be awaited before it is returned - the only awaits of recv are the selects
+    themselves (dropping recv there loses nothing: no message has been received yet)."""
+    cands = [c for c in ctx.facts.fns_matching(r"^" + SUP.replace("::", "::") + r"::job::priority::PriorityReceiver::recv") if c.kind == "coroutine" and c.def_.endswith("recv::{closure#0}")]
+    f = ctx.anchor_one(rule, "PriorityReceiver::recv coroutine", cands)
+    bad, n = [], 0
+    for x in thir.walk(thir.root(f)):
+        if x.get("k") == "match" and x.get("src") == "AwaitDesugar":
+            inner = thir.peel(x["e"])
+            d = pathx.desc(inner["a"][0]) if isinstance(inner, dict) and inner.get("k") == "call" and inner.get("a") else "?"
+            if d.startswith("Pin::new_unchecked(__awaitee"):
+                continue        # inside the desugaring of an await already counted
+            n += 1
+            if not d.startswith("poll_fn::poll_fn("):
+                bad.append(d[:80])
+    ctx.floor(rule, "awaits of recv (the selects)", n, 1)
+    ctx.require(not bad, rule, "recv-cancel-safe", "recv awaits nothing but its selects: a received control is returned without a further suspension point", f.loc(f.line), detail=str(bad),
+                fail="PriorityReceiver::recv awaits %s besides its selects: when the job task's outer select! takes the process-end branch while recv is suspended there, "
+                     "recv is dropped together with the control it had already taken from the queue - that control never runs and its ticket never resolves" % bad)
